@@ -618,6 +618,11 @@ impl TransportHandle {
             "Sending message to peer {} on protocol {}",
             peer_id, protocol
         );
+        #[cfg(feature = "verif-hooks")]
+        if let Some(net) = &self.verif_net {
+            let me = self.verif_transport_id.clone().unwrap_or_default();
+            net.note_send_attempt(&me, peer_id, protocol);
+        }
 
         // Check rate limits if resource manager is enabled
         if let Some(ref resource_manager) = self.resource_manager
@@ -1504,6 +1509,8 @@ pub mod verif {
     pub trait MemNet: Send + Sync {
         async fn connect(&self, from: &str, addr: SocketAddr) -> Option<String>;
         async fn send(&self, from: &str, to: &str, frame: Vec<u8>) -> std::result::Result<(), String>;
+        /// Called at the top of `send_message`, before any local check can refuse the send.
+        fn note_send_attempt(&self, _from: &str, _to: &str, _protocol: &str) {}
     }
 }
 
